@@ -90,7 +90,7 @@ def parseEnc (e : Bytes) : Bool × Nat :=
 def parseBfOffset (spec : Bytes) (width : Nat) : Option Int :=
   match spec with
   | 35 :: r => match parseInt32 r with
-    | some n => if n < 0 then none else some (n * width)
+    | some n => if n < 0 || n * width ≥ 4294967296 then none else some (n * width)
     | none => none
   | _ => match parseInt32 spec with
     | some n => if n < 0 then none else some n
@@ -156,7 +156,7 @@ def bfStep (c : Ctx) (buf : Bytes) (p : BfParsed) : Bytes × Bool × Value :=
           let neg := if c.q.bfSignedOverflow64 then decide (newValue < 0)
                      else (if p.kind == .incrby then decide (n + p.value < 0) else decide (p.value < 0))
           some (if neg then -(2 : Int) ^ (p.width - 1) else (2 : Int) ^ (p.width - 1) - 1)
-        else some (if newValue < 0 then 0 else (2 : Int) ^ p.width - 1)
+        else some (if p.value < 0 then 0 else (2 : Int) ^ p.width - 1)
       | .fail => none
     match resolved with
     | none => (buf, false, .nil)
@@ -167,7 +167,6 @@ def bfStep (c : Ctx) (buf : Bytes) (p : BfParsed) : Bytes × Bool × Value :=
 def cmdBitfieldParsed (c : Ctx) (db : Db) (k : Bytes) (ps : List BfParsed) : R :=
   let maxEnd := (ps.filter (·.kind != .get)).foldl (fun m p => max m (p.off.toNat + p.width - 1)) 0
   let length : Nat := maxEnd / 8 + 1
-  if (Int.ofNat length) > hugeAlloc then R.crashed db "bitfield: make([]byte, length) for a far offset" else
   match db.live c.now k with
   | some { val := .str _, .. } | none =>
     let (old, exp) : Bytes × Option Int := match db.live c.now k with
@@ -196,7 +195,7 @@ def cmdGetBit (c : Ctx) (db : Db) (k : Bytes) (off : Int) : R :=
 def errBitVal : Value := .error (sb "ERR bit is not an integer or out of range")
 
 def cmdSetBit (c : Ctx) (db : Db) (k : Bytes) (off v : Int) : R :=
-  if off < 0 then R.ok db errBfOffset
+  if off < 0 || off ≥ 4294967296 then R.ok db errBfOffset
   else if v != 0 && v != 1 then R.ok db errBitVal
   else
     let r := cmdBitfieldParsed c db k [{ kind := .set, signed := false, width := 1, off := off, value := v, ov := .wrap }]
@@ -235,24 +234,19 @@ def cmdBitCount (c : Ctx) (db : Db) (k : Bytes) (range : Option (Int × Int × B
 def firstBit (s : Bytes) (v : Bool) (a b : Nat) : Option Nat :=
   (List.range (b + 1 - a)).findSome? fun j => if bitAt s (a + j) == v then some (a + j) else none
 
-/-- `findBit` of `bitMath.go`. The range end is a *unit index*; in byte mode the code covers the
-    whole end byte, in bit mode it also looks at the remaining bits of the end byte (D62). -/
-def findBitModel (c : Ctx) (s : Bytes) (startIndex endIndex : Int) (width : Nat) (bit noEnd : Bool) : Int :=
+/-- `findBit` of `bitMath.go`: first bit equal to `bit` between the first bit of unit `startIndex`
+    and the last bit of unit `endIndex` (units are bytes or bits; negative indexes count from the
+    end); when looking for a clear bit without an explicit end, the position just past the string. -/
+def findBitModel (_c : Ctx) (s : Bytes) (startIndex endIndex : Int) (width : Nat) (bit noEnd : Bool) : Int :=
   let bits : Int := s.length * 8
   let last := bits - 1
   let startBit := if startIndex < 0 then bits + startIndex * width else startIndex * width
-  let endBit := if endIndex < 0 then bits + endIndex * width else endIndex * width
+  let endBit := (if endIndex < 0 then bits + endIndex * width else endIndex * width) + ((width : Int) - 1)
   let startBit := if startBit < 0 then 0 else startBit
   if startBit > last then -1 else
   if endBit < startBit then -1 else
   let endBit := if endBit > last then last else endBit
-  -- the search really runs to the end of the byte that holds `endBit`
-  let endByteLast := (endBit / 8) * 8 + 7
-  let searchEnd := if width == 8 || c.q.bitposPartialEnd then endByteLast else endBit
-  -- … except that a range starting and ending in the same partial byte is masked properly
-  let searchEnd := if startBit % 8 != 0 && startBit / 8 == endBit / 8 then
-      (if width == 8 then endByteLast else endBit) else searchEnd
-  match firstBit s bit startBit.toNat searchEnd.toNat with
+  match firstBit s bit startBit.toNat endBit.toNat with
   | some p => p
   | none => if !bit && noEnd then bits else -1
 
